@@ -171,8 +171,10 @@ class World:
         elif what == "two":
             arg = [self.new_leaf(pn), self.new_leaf(pn)]
         elif what == "present":
-            others = [n for n in sibs if n != leaf.name]
-            arg = [self.nodes[others[0]].doer] if others else [leaf.doer]
+            # a sibling that is a member right now (a self-removed, still running doer is not "present")
+            members = [name_of(x) for x in owner.doers]
+            others = [n for n in sibs if n != leaf.name and n in members]
+            arg = [self.nodes[others[0]].doer] if others else ([leaf.doer] if leaf.name in members else [])
         elif what == "dup":
             x = self.new_leaf(pn)
             arg = [x, x]
@@ -574,32 +576,39 @@ def run(job, ch, mode=None, table=None, cfg=None, kinds=None, runner=None):
 # shapes
 
 def shapes(maxdepth=2, maxtop=3, maxkids=2, maxleaves=6, always=False):
-    def entries(depth):
-        out = ["L"]
-        if depth >= 2:
-            sub = entries(depth - 1)
-            flags = (False, True) if always else (False,)
-            for n in range(1, maxkids + 1):
-                for kids in _product(sub, n):
-                    for a in flags:
-                        out.append(("D", a, tuple(kids)))
+    """all forests with <= maxtop top-level entries, DoDoers with 1..maxkids children, nesting
+    depth <= maxdepth (1 == flat), 1..maxleaves leaves; ordered by leaf count"""
+    flags = (False, True) if always else (False,)
+    memo = {}
+
+    def forests(n, depth, width):
+        """tuples of <= width entries (>=1) with exactly n leaves in total"""
+        key = (n, depth, width)
+        if key in memo:
+            return memo[key]
+        out = []
+        if width >= 1:
+            for first in range(1, n + 1):
+                for e in entries(first, depth):
+                    if first == n:
+                        out.append((e,))
+                    elif width > 1:
+                        for rest in forests(n - first, depth, width - 1):
+                            out.append((e,) + rest)
+        memo[key] = out
         return out
-    ent = entries(maxdepth)
+
+    def entries(n, depth):
+        out = ["L"] if n == 1 else []
+        if depth >= 2:
+            for kids in forests(n, depth - 1, maxkids):
+                for a in flags:
+                    out.append(("D", a, kids))
+        return out
     res = []
-    for n in range(1, maxtop + 1):
-        for combo in _product(ent, n):
-            if count_leaves(combo) <= maxleaves:
-                res.append(tuple(combo))
+    for n in range(1, maxleaves + 1):
+        res.extend(forests(n, maxdepth, maxtop))
     return res
-
-
-def _product(items, n):
-    if n == 0:
-        yield ()
-        return
-    for x in items:
-        for rest in _product(items, n - 1):
-            yield (x,) + rest
 
 
 def count_leaves(shape):
